@@ -961,3 +961,25 @@ def _strtol(I, a):
     if k == d0: k = 0
     if a[1] != NULL: I.store(a[1], (p[0], p[1] + k), 8)
     return mask(v, 64)
+
+@ext('strtod', 'strtold', 'atof', '__isoc23_strtod')
+def _strtod(I, a):
+    # concrete text or a single in-band token (symbolic number), leading white space skipped; endptr is set
+    import re
+    p = a[0]
+    if p == NULL: raise Monitor('null-deref', 'strtod(NULL)')
+    txt = I.cstr(p); j = 0
+    while j < len(txt) and txt[j] in ' \t\n\r\f\v': j += 1
+    end = 0; val = I.mkfloat(0.0)
+    m = re.match(r'\x1b(\d+)\x1b', txt[j:])
+    if m:
+        val = I.ext['tokens'][int(m.group(1))]; end = j + m.end()
+        if isinstance(val, SV): raise Unsupported('strtod of an integer token')
+    else:
+        m = re.match(r'[+-]?(?:(?:\d+\.?\d*|\.\d+)(?:[eE][+-]?\d+)?|inf(?:inity)?|nan)', txt[j:], re.I)
+        if m:
+            t = m.group(0); end = j + m.end()
+            v = float(t)
+            val = I.mkfloat(v) if v == v and v not in (INF, -INF) else v
+    if len(a) > 1 and a[1] != NULL: I.store(a[1], (p[0], p[1] + end), 8)
+    return val
